@@ -16,6 +16,11 @@
 //   cgjkr.refresh n t p q g h [SUB] (x_i xprime_i [C_..] [QUAL] STRONG WEAK DEV){n} => OUT{n}
 //       (the state before the call is an input: what the real party held)
 //       OUT = ret|[QUAL]|x_i|xprime_i|[C_00..]     `.`: not in SUB, `-`: died, `*`: masked
+//   cgjkr.sign n t p q g h MSG [SUB] (x_i xprime_i [C_..] [QUAL of x_rvss] STRONG DEV){n} => OUT{n}
+//       (one line per DSS::Sign call; x_i, x'_i of the DSS object, C_ik and QUAL of dkg->x_rvss before the call)
+//       OUT = ret|r|s|nops|digest|[checkpoints]: the number of output operations of the party (broadcasts and
+//       private values), a running digest of their values in program order and the digest after every broadcast
+//       made under the identifier of Sign itself (see ChildCtx::dg_add)     `.`: not in SUB, `-`: died
 //   STRONG = the values of the party's tmcg_mpz_srandomm(.,q) draws in order, WEAK = the protocol level
 //   `tmcg_mpz_wrandom_ui() % 2` draws in order (those of the reliable broadcast are filtered out),
 //   DEV = `-` (honest) or items joined by `;` (as drv_dkg.cc):
@@ -219,15 +224,33 @@ struct ChildCtx {
 	size_t depth0 = 0; std::map<int, int> lv_cnt;
 	std::map<int, int> po_cnt, pi_cnt;
 	std::string step_name;
+	// digest of everything the party hands to the network in this library call (what the Lean model of Sign
+	// recomputes): h <- (h * 1000003 + (v mod (2^61-1)) + kind) mod (2^61-1), kind 1 = broadcast, 2+j = private
+	// value for party j; a checkpoint after every broadcast made under the identifier of the call itself
+	uint64_t dg = 7; std::vector<uint64_t> dcps; long dn = 0;
+	void dg_add(mpz_srcptr v, unsigned kind)
+	{
+		const uint64_t P = ((uint64_t)1 << 61) - 1;
+		uint64_t r = mpz_fdiv_ui(v, P);
+		unsigned __int128 x = (unsigned __int128)dg * 1000003u + r + kind;
+		dg = (uint64_t)(x % P); dn++;
+	}
+	std::string dg_s() const { std::string c = "["; for (size_t k = 0; k < dcps.size(); k++) { if (k) c += ","; c += std::to_string(dcps[k]); }
+		return " nops=" + std::to_string(dn) + " dg=" + std::to_string(dg) + " cps=" + c + "]"; }
 
 	void report(const std::string &s) { std::string t = s + "\n"; size_t off = 0; while (off < t.size()) { ssize_t w = write(report_fd, t.data() + off, t.size() - off); if (w <= 0) break; off += (size_t)w; } }
 	uint64_t seed_base = 0; int step_no = 0;
 	void begin_step(const std::string &name, const Dev &d, int head, CachinKursawePetzoldShoupRBC *r)
 	{
 		coins.reseed(seed_base + 0x9e3779b97f4a7c15ULL * (uint64_t)(++step_no));
+		// every library call runs under its own enclosing broadcast identifier (the identifiers of the library
+		// carry no session counter: two calls with equal parameters, e.g. two Sign calls for the same message,
+		// would otherwise reuse identifier and sequence numbers; CGJKR_SAMEID=1 switches this off)
+		if (!getenv("CGJKR_SAMEID")) r->setID("drv-cgjkr call " + name);
 		rbc = r; depth0 = r->last_IDs.size(); lv_cnt.clear();
 		dev = d; dev_active = true; ops = 0; seg = 0; off = 0; bc_cur = IP(-1, -1); po_cnt.clear(); pi_cnt.clear();
 		tap.strong.clear(); tap.weak.clear();
+		dg = 7; dcps.clear(); dn = 0;
 		tap.base = seed_base; tap.ops = &ops; tap.step = &step_no; tap.zc = &dev.zc;
 		tap.begin(head);
 		step_name = name;
@@ -260,6 +283,7 @@ class tap_unicast : public aiounicast
 				int k = cx->po_cnt[(int)i_in]++;
 				auto it = cx->dev.po.find(IP((int)i_in, k));
 				if (it != cx->dev.po.end()) { Z d(it->second.c_str()); mpz_add(v, v, d); }
+				cx->dg_add(v, 2 + (unsigned)i_in);
 			}
 			vc_activity();
 			return inner->Send(v, i_in, timeout);
@@ -291,6 +315,7 @@ class tap_unicast : public aiounicast
 				auto im = cx->dev.bm.find(k);
 				if (im != cx->dev.bm.end()) { Z f(im->second.first.c_str()), pm(im->second.second.c_str()); mpz_mul(v, v, f); mpz_mod(v, v, pm); }
 				std::vector<mpz_srcptr> mm(m); mm[4] = v;
+				if (i_in == 0) { cx->dg_add(v, 1); if (cx->lv_cur.first == 1) cx->dcps.push_back(cx->dg); }
 				vc_activity();
 				ok = inner->Send(mm, i_in, timeout);
 			}
@@ -372,6 +397,20 @@ static void barrier(ChildCtx &cx, int step, Chan &c1, Chan &c2)
 		if (c2.rbc) { cx.rbc = c2.rbc; pump_rbc(c2.rbc); }
 	}
 }
+// The private channels carry no session identifier: values a party did not read before it left a call (e.g.
+// the back-up shares of the later steps of a Sign that failed for it) would be taken for the first private
+// values of the next call.  Every library call of the harness starts with empty private channels (as the
+// model assumes): after the barrier everybody discards what is still in its private links, then a second
+// barrier keeps the fast parties from sending into links that are being emptied.
+static void drain_private(ChildCtx &cx, int step, Chan &c1, Chan &c2)
+{
+	for (int which = 0; which < 2; which++) {
+		tap_unicast *u = which ? c2.u : c1.u; if (!u) continue;
+		int empty = 0; Z v;
+		while (empty < 3) { size_t from = 0; if (u->inner->Receive(v, from, aiounicast::aio_scheduler_roundrobin, 0)) empty = 0; else empty++; }
+	}
+	barrier(cx, step, c1, c2);
+}
 template <class V> static std::string zvec(const V &v) { return zlist(v.begin(), v.end()); }
 static std::string svec(const std::vector<size_t> &Q) { std::string qs = "["; for (size_t i = 0; i < Q.size(); i++) { if (i) qs += ","; qs += std::to_string(Q[i]); } return qs + "]"; }
 static std::string ivec(const std::vector<int> &Q) { std::string qs = "["; for (size_t i = 0; i < Q.size(); i++) { if (i) qs += ","; qs += std::to_string(Q[i]); } return qs + "]"; }
@@ -446,7 +485,7 @@ static void child_main(const Case &c, int me, int report_fd, Pipes *P)
 			bool r2 = vss.Reconstruct(0, v2, c1.rbc, err);
 			c1.rbc->unsetID();
 			cx.report(std::string("vs sr=") + (sr ? "1" : "0") + " r1=" + (r1 ? "1" : "0") + " v1=" + v1.str() + " r2=" + (r2 ? "1" : "0") + " v2=" + v2.str());
-			barrier(cx, 1, c1, c2);
+			barrier(cx, 1, c1, c2); drain_private(cx, 2, c1, c2);
 		} else if (c.kind == K_GEN) {
 			CanettiGennaroJareckiKrawczykRabinDKG dkg(c.n, c.t, me, c.p, c.q, c.g, c.h, c.pbits, c.qbits, false, false, "d");
 			cur = "gen";
@@ -455,13 +494,13 @@ static void child_main(const Case &c, int me, int report_fd, Pipes *P)
 			bool r = dkg.Generate(c1.u, c1.rbc, err, c.dev[0][me].sfb);
 			cx.tap.drain(EV_OTHER, IP(-1, -1));
 			cx.report(std::string("gen ret=") + (r ? "1" : "0") + dkg_state(dkg, c.n, c.t) + " strong=" + cx.tap.strong_s() + " weak=" + cx.tap.weak_s());
-			barrier(cx, 1, c1, c2);
+			barrier(cx, 1, c1, c2); drain_private(cx, 2, c1, c2);
 			cur = "ref";
 			cx.begin_step("ref", c.dev[1][me], 11, c1.rbc);
 			bool rr = dkg.Refresh(c.n, me, c1.u, c1.rbc, err, c.dev[1][me].sfb);
 			cx.tap.drain(EV_OTHER, IP(-1, -1));
 			cx.report(std::string("ref ret=") + (rr ? "1" : "0") + dkg_state(dkg, c.n, c.t) + " strong=" + cx.tap.strong_s() + " weak=" + cx.tap.weak_s());
-			barrier(cx, 2, c1, c2);
+			barrier(cx, 3, c1, c2); drain_private(cx, 4, c1, c2);
 		} else {
 			CanettiGennaroJareckiKrawczykRabinDSS dss(c.n, c.t, me, c.p, c.q, c.g, c.h, c.pbits, c.qbits, false, false);
 			auto dss_state = [&]() {
@@ -474,15 +513,16 @@ static void child_main(const Case &c, int me, int report_fd, Pipes *P)
 			bool r = dss.Generate(c1.u, c1.rbc, err, c.dev[0][me].sfb);
 			cx.tap.drain(EV_OTHER, IP(-1, -1));
 			cx.report(std::string("gen ret=") + (r ? "1" : "0") + dss_state() + " strong=" + cx.tap.strong_s() + " weak=" + cx.tap.weak_s());
-			barrier(cx, 1, c1, c2);
+			barrier(cx, 1, c1, c2); drain_private(cx, 2, c1, c2);
 			if (c.nsteps >= 2) {
 				cur = "sg1";
 				cx.begin_step("sg1", c.dev[1][me], 0, c1.rbc);
 				Z rr(0L), ss(0L);
 				bool sr = dss.Sign(c.n, me, c.msg1, rr, ss, c1.u, c1.rbc, err, c.dev[1][me].sfb);
 				bool vr = dss.Verify(c.msg1, rr, ss);
-				cx.report(std::string("sg1 ret=") + (sr ? "1" : "0") + " r=" + rr.str() + " s=" + ss.str() + " verify=" + (vr ? "1" : "0"));
-				barrier(cx, 2, c1, c2);
+				cx.tap.drain(EV_OTHER, IP(-1, -1));
+				cx.report(std::string("sg1 ret=") + (sr ? "1" : "0") + " r=" + rr.str() + " s=" + ss.str() + " verify=" + (vr ? "1" : "0") + cx.dg_s() + " strong=" + cx.tap.strong_s());
+				barrier(cx, 3, c1, c2); drain_private(cx, 4, c1, c2);
 			}
 			if (c.nsteps >= 3) {
 				cur = "ref";
@@ -498,7 +538,7 @@ static void child_main(const Case &c, int me, int report_fd, Pipes *P)
 					cx.tap.drain(EV_OTHER, IP(-1, -1));
 					cx.report(std::string("ref ret=") + (rf ? "1" : "0") + dss_state() + " strong=" + cx.tap.strong_s() + " weak=" + cx.tap.weak_s());
 				}
-				barrier(cx, 3, c1, c2);
+				barrier(cx, 5, c1, c2); drain_private(cx, 6, c1, c2);
 			}
 			if (c.nsteps >= 4) {
 				cur = "sg2";
@@ -512,16 +552,19 @@ static void child_main(const Case &c, int me, int report_fd, Pipes *P)
 						sr = dss.Sign(n2, me2, c.msg2, rr, ss, idx2dkg, dkg2idx, c2.u, c2.rbc, err, c.dev[3][me].sfb);
 					}
 					bool vr = dss.Verify(c.msg2, rr, ss);
-					cx.report(std::string("sg2 ret=") + (sr ? "1" : "0") + " r=" + rr.str() + " s=" + ss.str() + " verify=" + (vr ? "1" : "0"));
+					cx.tap.drain(EV_OTHER, IP(-1, -1));
+					cx.report(std::string("sg2 ret=") + (sr ? "1" : "0") + " r=" + rr.str() + " s=" + ss.str() + " verify=" + (vr ? "1" : "0") + cx.dg_s() + " strong=" + cx.tap.strong_s());
 				}
-				barrier(cx, 4, c1, c2);
+				barrier(cx, 7, c1, c2); drain_private(cx, 8, c1, c2);
 			}
 		}
 		if (getenv("DKG_ERRDIR")) std::cerr << err.str();
 	} catch (std::exception &e) {
 		if (getenv("DKG_ERRDIR")) std::cerr << err.str();
 		std::string w = e.what(); for (auto &ch : w) if (ch == ' ') ch = '_';
-		cx.report(std::string("exc step=") + cur + " what=" + w);
+		std::string cls = dynamic_cast<std::invalid_argument*>(&e) ? "throw:invalid_argument" : dynamic_cast<std::runtime_error*>(&e) ? "throw:runtime_error" : "throw:exception";
+		cx.tap.drain(EV_OTHER, IP(-1, -1));
+		cx.report(std::string("exc step=") + cur + " what=" + w + " cls=" + cls + " strong=" + cx.tap.strong_s());
 	} catch (...) {
 		cx.report(std::string("exc step=") + cur + " what=other");
 	}
@@ -673,6 +716,31 @@ static std::string run_case(const Case &c, double limit_s)
 					+ "|" + get(sg, "ret") + "|" + get(sg, "r") + "|" + get(sg, "s") + "|" + get(sg, "verify");
 			}
 			std::vector<int> all; for (int i = 0; i < c.n; i++) all.push_back(i);
+			{
+				// the trace line of the Sign call: the key material every signer brings, its strong draws and script;
+				// not for runs with the library's own `simulate_faulty_behaviour` switch (not modelled for Sign)
+				bool sfb_any = false; for (int i = 0; i < c.n; i++) if (c.dev[step][i].sfb) sfb_any = true;
+				if (!sfb_any) {
+					std::string in, out;
+					for (int i = 0; i < c.n; i++) {
+						const KV *s0 = find(i, "gen"), *sr = find(i, "ref"), *sg = find(i, head), *d = dead_in(i, head);
+						const KV *ex = find(i, "exc"); if (ex && get(ex, "step") != head) ex = nullptr;
+						if (!sg && !d && ex) {      // a C++ exception left the call: the model must end in the same error
+							const KV *st = (sn == 2 && sr) ? sr : s0;
+							if (st) { in += " " + get(st, "dx") + " " + get(st, "dxp") + " " + get(st, "C") + " " + get(st, "xq") + " " + get(ex, "strong") + " " + c.dev[step][i].str();
+								out += " exc:" + get(ex, "cls"); continue; }
+						}
+						if (sn == 2 && !c.in_sub(i)) { in += " 0 0 [] [] [] -"; out += " ."; continue; }
+						const KV *st = (sn == 2 && sr) ? sr : s0;
+						if (!st || (!sg && !d)) { in += " 0 0 [] [] [] Z,0"; out += " -"; continue; }
+						const KV *cs = sg ? sg : d;
+						in += " " + get(st, "dx") + " " + get(st, "dxp") + " " + get(st, "C") + " " + get(st, "xq") + " " + get(cs, "strong") + " " + c.dev[step][i].str();
+						if (!sg) { out += " -"; continue; }
+						out += " " + get(sg, "ret") + "|" + get(sg, "r") + "|" + get(sg, "s") + "|" + get(sg, "nops") + "|" + get(sg, "dg") + "|" + get(sg, "cps");
+					}
+					add("cgjkr.sign " + nt + " " + pqgh + " " + (sn == 1 ? c.msg1.str() : c.msg2.str()) + " " + ivec(sn == 1 ? all : c.sub) + in + " tag:" + c.tag + " =>" + out + crash0);
+				}
+			}
 			add("prop.cgjkr.sign " + where + " m=" + (sn == 1 ? c.msg1.str() : c.msg2.str()) + " step=" + std::to_string(sn) + " sub=" + ivec(sn == 1 ? all : c.sub)
 				+ " refreshed=" + (sn == 2 ? "1" : "0") + " honest=" + honest_upto(step) + " tag:" + c.tag + " =>" + prop + crash);
 		}
@@ -752,6 +820,14 @@ static std::string dev_sign(Dev &d, SplitMix &g, int how, int n, int t, const Ca
 	case 9: d.LA(1, (int)g.below(34), zs(c.q)); return "sign-plusq";
 	case 10: d.LA(1, 4 + (int)g.below(2), "1"); return "sign-badproof1c";
 	case 11: d.LA(1, 21, "1"); return "sign-badproof2c";
+	case 15: {
+		// two deviating signers: the first fails the product proof of step 1d (its back-ups k_j, a_j are then
+		// reconstructed in step 1e), the second publishes an oversized share in that reconstruction
+		// (PedersenVSS::Reconstruct has no range check on the first component)
+		static int turn = 0;
+		if ((turn++ % 2) == 0) { d.LA(1, 12, "1"); return "sign-badproof1d-A"; }
+		int idx = ((t + 1) + 2) + 9 + (2 * (n - 1) + 2 * (t + 1)) + (t + 3) + ((n - 1) + (t + 1)) + (t + 3);
+		d.LA(2, idx, pow2s(2100)); return "sign-hugerecshare-B"; }
 	case 14: {
 		// a signer that fails the product proof in step 1d AND in step 2d and still stays in step: its back-up
 		// sharings of v_i use the constant polynomial with zero randomness (then its own view of the mu / s
